@@ -155,3 +155,73 @@ func exprStr2(n ast.Node) string {
 	}
 	return "statement"
 }
+
+func init() {
+	register(&core.Rule{ID: "C14.8", Prop: "C14", MinSites: 2, Applies: func(c core.Config) bool { return c.HasTag("gc_opt") },
+		Desc: "per-row bookkeeping names one row: wherever the matrix registry tests connCounts[X] to decide between clearing table[Y] and table[Y][…], X and Y are the same expression (the row of the entry being removed or moved), not the insertion cursor",
+		Run: runC14_8})
+}
+
+func runC14_8(c *core.Ctx) {
+	a := regAnchors(c)
+	if a == nil || !a.gc {
+		return
+	}
+	counts := c.P.Field("", "connMatrix", "connCounts")
+	if !c.Need("connMatrix.connCounts", counts) {
+		return
+	}
+	for _, f := range []*fn{a.add, a.del} {
+		k := 0
+		ast.Inspect(f.Decl.Body, func(n ast.Node) bool {
+			is, ok := n.(*ast.IfStmt)
+			if !ok {
+				return true
+			}
+			// connCounts[X] in the condition
+			var rowX ast.Expr
+			ast.Inspect(is.Cond, func(m ast.Node) bool {
+				if ie, ok := m.(*ast.IndexExpr); ok && flow.FieldOf(f.Info, ie.X) == counts {
+					rowX = ie.Index
+				}
+				return true
+			})
+			if rowX == nil {
+				return true
+			}
+			// table[Y] = … / table[Y][…] = … in the branches
+			check := func(blk ast.Node) {
+				if blk == nil {
+					return
+				}
+				ast.Inspect(blk, func(m ast.Node) bool {
+					as, ok := m.(*ast.AssignStmt)
+					if !ok {
+						return true
+					}
+					for _, l := range as.Lhs {
+						e := ast.Unparen(l)
+						var rowY ast.Expr
+						if ie, ok := e.(*ast.IndexExpr); ok {
+							if flow.FieldOf(f.Info, ie.X) == a.table {
+								rowY = ie.Index
+							} else if inner, ok := ast.Unparen(ie.X).(*ast.IndexExpr); ok && flow.FieldOf(f.Info, inner.X) == a.table {
+								rowY = inner.Index
+							}
+						}
+						if rowY == nil {
+							continue
+						}
+						k++
+						c.Check(exprStr(rowX) == exprStr(rowY), f.Name, "row of the count test = row of the table write #"+itoa(k), as.Pos(), "both name "+exprStr(rowY),
+							"the decision is taken on connCounts["+exprStr(rowX)+"] but the write goes to table["+exprStr(rowY)+"]: when the two rows differ a whole row of live connections is dropped from the table (lookups return nil, iterate skips them, the count still includes them)")
+					}
+					return true
+				})
+			}
+			check(is.Body)
+			check(is.Else)
+			return true
+		})
+	}
+}
